@@ -23,17 +23,20 @@ IsSh(s) == s \in {"sh", "sh -e {0}"}
 IsPython(s) == s \in {"python", "python {0}"}
 
 \* declarative: GitHub's rule - first of step / job default / workflow default, else the runner's default
+\* "" = the step / defaults.run section is absent; "<wd>" = it is present and gives working-directory but no shell
+Given(s) == s \notin {"", "<wd>"}
 Effective(step, job, wf, win) ==
-  IF step # "" THEN step ELSE IF job # "" THEN job ELSE IF wf # "" THEN wf ELSE IF win THEN "pwsh" ELSE "bash"
+  IF Given(step) THEN step ELSE IF Given(job) THEN job ELSE IF Given(wf) THEN wf ELSE IF win THEN "pwsh" ELSE "bash"
 ToolFor(shell) == IF IsBash(shell) THEN "sc:bash" ELSE IF IsSh(shell) THEN "sc:sh" ELSE IF IsPython(shell) THEN "py" ELSE "none"
 DeclTool(step, job, wf, win) == ToolFor(Effective(step, job, wf, win))
 
 \* operational: the two rules decide independently
+\* rule_shellcheck.go keeps the value of shell: ("" when the key is missing, whatever else the section has)
 ScShell(step, job, wf, win) ==
-  IF step # "" THEN step ELSE IF job # "" THEN job ELSE IF wf # "" THEN wf ELSE IF win THEN "pwsh" ELSE "bash"
+  IF Given(step) THEN step ELSE IF Given(job) THEN job ELSE IF Given(wf) THEN wf ELSE IF win THEN "pwsh" ELSE "bash"
 ScRuns(step, job, wf, win) == LET n == ScShell(step, job, wf, win) IN
   IF IsBash(n) THEN "sc:bash" ELSE IF IsSh(n) THEN "sc:sh" ELSE "none"
-PyKind(s) == IF s = "" THEN "unspec" ELSE IF IsPython(s) THEN "py" ELSE "notpy"
+PyKind(s) == IF ~Given(s) THEN "unspec" ELSE IF IsPython(s) THEN "py" ELSE "notpy"
 PyRuns(step, job, wf) ==
   IF PyKind(step) # "unspec" THEN PyKind(step) = "py"
   ELSE IF PyKind(job) # "unspec" THEN PyKind(job) = "py"
